@@ -302,8 +302,8 @@ var ppStepKinds = []string{"g", "g", "g", "g", "gf", "gw", "gn", "gc", "gt", "gx
 
 func genPPool(r *hx.Rng) string {
 	size := r.Range(1, 4)
-	if r.Chance(1, 12) {
-		size = 0
+	if r.Chance(1, 6) {
+		size = 0 // unbuffered pool
 	}
 	ln := r.Range(1, 14)
 	if r.Chance(1, 8) {
